@@ -117,6 +117,27 @@ def gen_load(rng, quick, numpy):
         if not quick:
             objs += [({"kind": "nested", "n": 12, "seed": rng.randrange(1000)}, "all"),
                      ({"kind": "bytes", "n": 70000, "seed": 5}, {"auto": 4000})]
+    if not numpy:
+        # non-ASCII text under every pickle protocol: a cut inside a UTF-8 character of a str that is read outside a
+        # pickle frame (protocol 3: any str; protocol 4/5: a str >= 64 KiB) raises UnicodeDecodeError inside _unpickle
+        uobjs = [{"kind": "utext", "n": 40, "dense": True, "seed": rng.randrange(1000)},
+                 {"kind": "udict", "n": 25, "dense": True, "seed": rng.randrange(1000)},
+                 {"kind": "ulist", "n": 30, "seed": rng.randrange(1000)},
+                 {"kind": "umix", "n": 20, "dense": True, "seed": rng.randrange(1000)},
+                 {"kind": "utext", "n": 30000, "period": 37, "seed": rng.randrange(1000)},       # >= 64 KiB encoded
+                 {"kind": "udict", "n": 26000, "dense": True, "period": 41, "seed": rng.randrange(1000)}]
+        if not quick:
+            uobjs += [{"kind": "utext", "n": 24000, "dense": True, "seed": 7},                    # incompressible-ish
+                      {"kind": "umix", "n": 40000, "period": 1000, "seed": 8},
+                      {"kind": "ulist", "n": 70000, "period": 53, "seed": 9}]
+        for obj in uobjs:
+            for proto in range(6):
+                for comp in COMPRESSORS:
+                    if quick and proto in (0, 1) and comp not in (0, ["zlib", 3]):
+                        continue
+                    cases.append({"kind": "load", "obj": obj, "compress": comp, "protocol": proto,
+                                  "trunc": {"unicode": 120 if quick else 1500}, "trailers": TRAILERS[:2],
+                                  "via": "path" if rng.random() < 0.1 else "bytesio"})
     for obj, trunc in objs:
         comps = list(COMPRESSORS)
         if not numpy:
@@ -155,6 +176,11 @@ def gen_memory(rng, quick):
         for obj in large:
             cases.append({"kind": "memory", "obj": obj, "compress": comp,
                           "damage": [["trunc_auto", 80 if quick else 600]] + ext})
+        # a result holding >= 64 KiB of non-ASCII text (read outside a pickle frame with Memory's default protocol)
+        cases.append({"kind": "memory", "obj": {"kind": "utext", "n": 30000, "period": 37, "seed": 11},
+                      "compress": comp, "damage": [["trunc_u", 60 if quick else 600]] + ext})
+        cases.append({"kind": "memory", "obj": {"kind": "udict", "n": 10, "dense": True, "seed": 12},
+                      "compress": comp, "damage": [["trunc_all"]] + ext})
     return cases
 
 
@@ -388,7 +414,7 @@ def run(ctx):
         for k, n in r["exc_types"].items():
             stats["exc_types"][k] = stats["exc_types"].get(k, 0) + n
         for n, ch in zip(r["points"], r["codes"]):
-            nontrivial.add(json.dumps([c["obj"], c["compress"], n]))
+            nontrivial.add(json.dumps([c["obj"], c["compress"], c.get("protocol"), n]))
     # ---- 4. _read_bytes
     rb_cases = gen_readbytes(ctx.rng, 400 if quick else 3000)
     rb_res = run_watchdog(rb_cases, nproc=4)
